@@ -366,6 +366,10 @@ impl Property for C18 {
     fn isolated(&self) -> bool {
         true
     }
+    fn rerun_attempts(&self) -> u32 {
+        // a schedule-dependent failure shows in some executions of a case only
+        40
+    }
     fn strategy(&self, tier: Tier) -> BoxedStrategy<Case> {
         let th = tier.thorough();
         let mut sp = CfgSpace::histories(th);
